@@ -367,6 +367,37 @@ def main(tier, only=None):
             rep.obligation(out == 'known')
             rep.sample({'kernel': desc, 'obligation': kind, 'verdict': 'sat', 'witness': o.get('witness'), 'expected': o.get('expected'), 'class': out,
                         'engine': (rp.get('how') or {}).get('engine')}, cap=14)
+    # expression-level arms of Evaluator::eval (IS NULL, IN lists), composed from the kernels above
+    if not only or only in ('IsNull', 'In'):
+        from . import c14e
+        etasks = [(node, tys, k, n, paths[True]) for node, tys, k in c14e.cases(thorough) for n in ((1, 2, 3) if thorough else (2,)) if not only or only == node]
+        with mp.Pool(16) as pool:
+            eres = pool.map(c14e.run_case, etasks, chunksize=1)
+        for r in eres:
+            fns |= set(r.get('fns', []))
+            nats |= set(r.get('natives', []))
+            rep.solver(r.get('solver_s', 0.0), len(r['obligations']))
+            desc = 'Evaluator::eval on (%s %s) with %d list element(s), %d rows' % (r['node'], 'x'.join(r['tys']), r['k'], r['n'])
+            if 'inconclusive' in r:
+                rep.fail_inconclusive('%s: %s' % (desc, r['inconclusive']))
+                continue
+            states += 1
+            for o in r['obligations']:
+                transitions += 1
+                if o['verdict'] == 'unsat':
+                    rep.obligation(True)
+                    rep.sample({'expression': desc, 'obligation': o['kind'], 'verdict': 'every row equals the scalar three-valued definition, whatever the other rows hold'}, cap=9)
+                    continue
+                if o['verdict'] == 'unknown':
+                    rep.obligation(False)
+                    rep.fail_inconclusive('solver unknown: %s' % desc)
+                    continue
+                rp = c14e.replay(r['node'], r['tys'], o['witness']) if o.get('witness') else {'reproduced': None, 'how': {}}
+                rep.cov['traces_validated_against_impl'] = rep.cov.get('traces_validated_against_impl', 0) + (1 if rp['reproduced'] else 0)
+                key = 'evaluator:%s:%s' % (r['node'], o['kind'])
+                what = '%s: %s -- batch %s; engine %s, scalar definition %s' % (desc, o['kind'], json.dumps(o.get('witness')), json.dumps(rp['how'].get('engine')), json.dumps(rp['how'].get('expected')))
+                out = rep.counterexample(key, what[:500], {'obligation': o, 'desc': desc, 'replay': rp}, rp['reproduced'])
+                rep.obligation(out == 'known')
     rep.cov['functions_encoded'] = sorted(f for f in fns if 'array' in f or 'ops' in f or f in ('binary_op', 'unary_op', 'select_op', 'try_unary_op', 'safen_dividend', 'f'))[:80]
     rep.cov['functions_encoded_count'] = len(fns)
     rep.cov['trusted_base'] = ['natives (std / bitvec models): ' + n for n in sorted(nats)] + ['crate contracts: ' + c for c in CRATE_CONTRACTS]
